@@ -113,14 +113,6 @@ end KVD
 namespace SQLD
 open NostrRelay NostrRelay.KV NostrRelay.SQL
 
-def parsePre (j : Json) : PreOutcome :=
-  match j with
-  | Json.str "raises" => .raises
-  | Json.str _ => .noVictim
-  | _ => match (j.getObjValAs? String "victim").toOption with
-    | some h => .victim (fromHex h)
-    | none => .noVictim
-
 def dump (s : State) : Json :=
   let evs := (s.events.map fun e => toHex e.id).toArray.qsort (· < ·)
   let tgs := (s.tags.map fun t => toHex t.id ++ "|" ++ toHex t.name ++ "|" ++ toHex t.value).toArray.qsort (· < ·)
@@ -180,20 +172,9 @@ def step (st : St) (j : Json) : St × Json :=
   | "sql.reset" => ({ st with sql := {} }, Json.str "ok")
   | "sql.add" =>
     let e := KVD.parseEvent (j.getObjVal? "ev" |>.toOption.getD Json.null)
-    let preJ := j.getObjVal? "pre" |>.toOption.getD Json.null
-    if preJ == Json.str "anyraise" then
-      -- the implementation raised (state rolled back): is there an allowed pre_save outcome under
-      -- which the model raises too?
-      let outs := NostrRelay.SQL.preSaveOutcomes st.sql e
-      let can := outs.any fun o => match NostrRelay.SQL.addEvent st.sql e o with | .raises => true | _ => false
-      (st, Json.str (if can then "raises" else "no-raise-possible"))
-    else
-    let pre := SQLD.parsePre preJ
-    match NostrRelay.SQL.addEvent st.sql e pre with
+    match NostrRelay.SQL.addEvent st.sql e with
     | .ok s' ch => ({ st with sql := s' }, Json.str (if ch then "ok:true" else "ok:false"))
     | .raises => (st, Json.str "raises")
-    | .illegal => (st, Json.mkObj [("illegal", Json.arr ((NostrRelay.SQL.preSaveOutcomes st.sql e).map fun o =>
-        match o with | .noVictim => Json.str "none" | .raises => Json.str "raises" | .victim i => Json.str (toHex i)).toArray)])
   | "sql.dump" => (st, SQLD.dump st.sql)
   | "sql.gc" => ({ st with sql := NostrRelay.SQL.gcSql st.sql (getInt j "now").toNat }, Json.str "ok")
   | "sql.query" =>
